@@ -54,6 +54,7 @@ def three_way(pid, quirk, cases, proj, what):
 
 def c16(tier, rng, seed):
     r = three_way('C16', 'q16', P.radio_cases(rng, tier), {'C16'}, 'radio')
+    r = merge3(r, three_way('C16', 'q16', P.poisoned_parser_cases(rng, tier, [1, 2, 3, 4, 9, 11, 18]), {'C16'}, 'reused-parser'))
     ex = explored('msg', tier)
     if ex: r = merge3(r, three_way('C16', 'q16', ex, {'C16'}, 'explored-msg'))
     return r
@@ -372,6 +373,7 @@ def c05(tier, rng, seed):
             fin, ref = lines[-2], lines[-1]
             # the reference is the unfragmented form of the group before it (reassembly_cases' first family)
             if b',1,1,' not in bytes.fromhex(cases[ref].split(' ')[-1]): continue
+            if cases[fin].split(' ')[2] != cases[ref].split(' ')[2]: continue      # compared under the same decode flag only
             n += 1
             a, b = c.split_line(io[fin])[0], c.split_line(io[ref])[0]
             ma, mb = c.message_of(a), c.message_of(b)
